@@ -4,6 +4,7 @@ import JominiModel.Proofs.TextDe
 import JominiModel.Proofs.TextDeStream
 import JominiModel.Proofs.TextDeTape
 import JominiModel.Proofs.TextDeTapeNested
+import JominiModel.Proofs.TextEndToEnd
 /-
 C02 — Text deserialization returns the document's values on both parse paths.
 Only property theorems live here; helper lemmas are in `Proofs/TextDe*.lean`.
